@@ -200,5 +200,23 @@ var vxMu sync.Mutex
 
 // vxLock/vxUnlock protect harness bookkeeping in native replays (the engine runs harness code atomically
 // between synchronisation points, so they are no-ops there).
-func vxLock()   { vxMu.Lock() }
-func vxUnlock() { vxMu.Unlock() }
+// VX_NOLOCK=1 (race confirmation runs): no harness lock, so that it cannot order library accesses by accident.
+var vxNoLock = os.Getenv("VX_NOLOCK") != ""
+
+func vxLock() {
+	if !vxNoLock {
+		vxMu.Lock()
+	}
+}
+func vxUnlock() {
+	if !vxNoLock {
+		vxMu.Unlock()
+	}
+}
+
+// vxJitter: in race-confirmation runs, stretch the environment's calls a little so that concurrent requests really overlap.
+func vxJitter() {
+	if vxNoLock {
+		vxSleepMs(1)
+	}
+}
